@@ -880,6 +880,29 @@ def run(ctx):
             i += 1
             if ctx.mine(i) and len(old) <= len(s):
                 law_sub_consistent(ctx, s, old)
+    # characters outside of the BMP count as one character everywhere (FIND, MID, LEFT, LEN, REPLACE)
+    for s in strings(['a', 'b', '\U0001F600', '\U00010400'], 3, 1):
+        i += 1
+        if not ctx.mine(i) or s.isascii():
+            continue
+        ctx.count('non-bmp-subjects')
+        for f in ('a', 'b', '\U0001F600', 'ab', 'b\U0001F600', '\U00010400a'):
+            law_find(ctx, f, s, None)
+            for st in (1, 2, 3):
+                law_find(ctx, f, s, st)
+        for n in (0, 1, 2, 3):
+            law_slice(ctx, s, n)
+            for k in (1, 2):
+                law_mid(ctx, s, n or 1, k, TS)
+    # two different error values among the operands: CONCATENATE and & pick the same one
+    errs = ['#NULL!', '#DIV/0!', '#VALUE!', '#REF!', '#NAME?', '#NUM!', '#N/A']
+    for e1 in errs:
+        for e2 in errs:
+            i += 1
+            if ctx.mine(i) and e1 != e2:
+                ctx.count('concat-two-different-errors')
+                law_concat(ctx, [e1, e2])
+                law_concat(ctx, ['x', e1, 3, e2])
     ctx.note('exhaustive part done after %.1fs' % (ctx.budget - ctx.time_left()))
     sampled(ctx)
 
